@@ -198,6 +198,102 @@ def _observe_doc(case):
     return cid, words, width, toks, cname, obs
 
 
+# ---------------- hard-break and tag-delimited segments (every width incl. <= 0, both wrappers, and end to end) ----------------
+SEG_CONT = [("top", "", ""), ("bullet", "- ", "  "), ("quote", "> ", "> "), ("ordered", "1. ", "   ")]
+
+
+def _seg_cases(tier):
+    from itertools import product
+    cases = []
+    n = 0
+    lens = (2, 4)
+    widths = (-1, 0, 6, 40) if tier == "quick" else (-7, -1, 0, 5, 6, 9, 12, 40)
+    for nseg in (2, 3):
+        for wc in product((1, 2, 3) if tier == "thorough" else (1, 3), repeat=nseg):
+            for seps in product(("\\\n", "  \n"), repeat=nseg - 1):
+                for cname, first, cont in SEG_CONT:
+                    for w in widths:
+                        segs = [[dict(k="p", n=lens[(n + i + j) % 2]) for j in range(c)] for i, c in enumerate(wc)]
+                        cases.append((n, "hard", segs, list(seps), cname, first, cont, w))
+                        n += 1
+    for body in (1, 2, 3):
+        for cname, first, cont in SEG_CONT[:1]:
+            for w in widths:
+                cases.append((n, "tag", [[dict(k="p", n=lens[(n + j) % 2]) for j in range(body)]], [], cname, first, cont, w))
+                n += 1
+    return cases
+
+
+def _groups(lines, nseg):
+    """split output lines into hard-break groups: a group ends with a line that ends in a backslash"""
+    groups, cur = [], []
+    for l in lines:
+        if l.endswith("\\"):
+            cur.append(l[:-1])
+            groups.append(cur)
+            cur = []
+        else:
+            cur.append(l)
+    groups.append(cur)
+    return groups
+
+
+def _observe_segs(case):
+    from flowmark import reformat_text
+    from flowmark.linewrapping.line_wrappers import line_wrap_by_sentence, line_wrap_to_width
+    cid, kind, segs, seps, cname, first, cont, width = case
+    toks = [vocab.concretise(sg, variant=cid + i) for i, sg in enumerate(segs)]
+    obs = []
+    if kind == "hard":
+        text = ""
+        src = first
+        for i, tk in enumerate(toks):
+            text += " ".join(tk) + (seps[i] if i < len(seps) else "")
+            src += " ".join(tk) + (seps[i] + cont if i < len(seps) else "\n")
+        expect = toks
+    else:
+        text = "{% blk %}\n" + " ".join(toks[0]) + "\n{% /blk %}"
+        src = text + "\n"
+        expect = [["{% blk %}"], toks[0], ["{% /blk %}"]]
+    ii, si = first, cont
+    runs = [("line_wrap_to_width", "fill", lambda: line_wrap_to_width(width=width, is_markdown=True)(text, ii, si)),
+            ("line_wrap_by_sentence", "sem", lambda: line_wrap_by_sentence(width=width, is_markdown=True)(text, ii, si)),
+            ("reformat_text(fill)", "fill", lambda: reformat_text(src, width=width, semantic=False).rstrip("\n")),
+            ("reformat_text(semantic)", "sem", lambda: reformat_text(src, width=width, semantic=True).rstrip("\n"))]
+    for fn, mode, thunk in runs:
+        try:
+            r = thunk()
+        except Exception as e:  # noqa: BLE001
+            obs.append(dict(fn=fn, exc=repr(e)))
+            continue
+        lines = r.split("\n")
+        if kind == "hard":
+            groups = _groups(lines, len(expect))
+        else:
+            # tag block: the tag lines are segments of their own
+            groups, cur = [], []
+            for l in lines:
+                if l.strip() in ("{% blk %}", "{% /blk %}"):
+                    if cur:
+                        groups.append(cur)
+                    groups.append([l])
+                    cur = []
+                else:
+                    cur.append(l)
+            if cur:
+                groups.append(cur)
+        o = dict(fn=fn, mode=mode, raw=r, ngroups=len(groups), nseg=len(expect), groups=[])
+        if len(groups) == len(expect):
+            for gi, (g, tk) in enumerate(zip(groups, expect)):
+                a = vocab.abstract_lines(tk, g, ii if gi == 0 else si, si, True)
+                a["ic"] = len(ii if gi == 0 else si)
+                a["so"] = len(si)
+                a["words"] = segs[gi] if kind == "hard" else [dict(k="p", n=len(t)) for t in tk]
+                o["groups"].append(a)
+        obs.append(o)
+    return case, text, src, obs
+
+
 def run(tier: str) -> int:
     chk = Check("C05", tier, "model_checking")
     chk.rule = ("cases = every behaviour of spec/Wrap.tla within the tier's constants (word kind/length vectors x "
@@ -304,6 +400,26 @@ def run(tier: str) -> int:
     if len(got_containers) < len(CONTAINERS):
         raise tlc.TlcError(f"vacuous: containers without recorded paragraph: "
                            f"{sorted(set(c[0] for c in CONTAINERS) - got_containers)}")
+    # ---- hard-break / tag-delimited segments: each segment is wrapped on its own (one WrapTrace trace per segment) ----
+    seg_meta = {}
+    for case, text, src, obs in pmap(_observe_segs, _seg_cases(tier), chunksize=50):
+        cid, kind, segs, seps, cname, first, cont, width = case
+        for o in obs:
+            chk.evaluations += 1
+            m = dict(fn=o.get("fn"), family="segments:" + kind, text=text, src=src, container=cname, width=width, output=o.get("raw"))
+            if "exc" in o:
+                chk.violation("NoException", dict(m, exc=o["exc"]))
+                continue
+            if o["ngroups"] != o["nseg"]:
+                chk.violation("SegmentsKept", dict(m, why=f"{o['nseg']} hard-break / tag-delimited segments in, {o['ngroups']} out"))
+                continue
+            chk.nontriv(("seg", cid, o["fn"]))
+            for gi, a in enumerate(o["groups"]):
+                tid += 1
+                # sentence mode at width > 0 is C11's (and D14's) business: here only the width-independent clauses are judged
+                traces.append(_mk_trace(tid, a["words"], width, a["ic"], a["so"], True, a, impl="wrap" if o["mode"] == "fill" else "none",
+                                        maximal=o["mode"] == "fill"))
+                seg_meta[tid] = dict(m, segment=gi, mode=o["mode"])
     # ---- sentence wrapper: Lossless / Indent / Bounded / OneLine / escapes (P1, P2, Local are C11's) ----
     from harness import sentence
     sconsts = dict(sentence.TIERS[tier], DoDiff=False)
@@ -351,6 +467,13 @@ def run(tier: str) -> int:
     for t in traces:
         if t["id"] in meta:
             judge(chk, reports[t["id"]], meta[t["id"]], reports.get(alt.get(t["id"])))
+        elif t["id"] in seg_meta:
+            m = seg_meta[t["id"]]
+            residual, _, _ = failures(chk, reports[t["id"]], m)
+            if m["mode"] == "sem" and t["width"] > 0:
+                residual = [(c, j) for c, j in residual if c not in ("Bounded", "Maximal")]
+            if residual:
+                chk.violation("+".join(sorted({c for c, _ in residual})), dict(m, failing=residual))
     for t in [t for t in traces if t["id"] in meta][:: max(1, len(traces) // 5)][:5]:
         chk.sample({"trace": {k: t[k] for k in ("words", "width", "ic", "so", "md", "out")}, "fn": meta[t["id"]]["fn"],
                     "text": meta[t["id"]]["text"]})
